@@ -94,6 +94,36 @@ fn native_spec() {
                 }
             }
         }
+    } else if target == "id_closures_total" {
+        // C01: parsing never panics.  Commands whose matcher holds GROUP ids next to argument ids, in the
+        // situations where the parser/validator maps over all matcher ids to build an error.
+        std::panic::set_hook(Box::new(|_| {}));
+        for acws in [false, true] {
+            for grouped in [false, true] {
+                for argv in [
+                    vec!["p", "--a", "--sub"], vec!["p", "--a", "-S"], vec!["p", "--a", "sub"], vec!["p", "--a", "--b"],
+                    vec!["p", "--a", "zzz"], vec!["p", "--a", "--a"], vec!["p", "--b", "--sub"], vec!["p", "--a", "--", "--sub"],
+                ] {
+                    let argv2 = argv.clone();
+                    let r = std::panic::catch_unwind(move || {
+                        let mut cmd = Command::new("p")
+                            .args_conflicts_with_subcommands(acws)
+                            .arg(Arg::new("a").long("a").action(ArgAction::SetTrue))
+                            .arg(Arg::new("b").long("b").action(ArgAction::SetTrue).conflicts_with("a"))
+                            .subcommand(Command::new("sub").long_flag("sub").short_flag('S'));
+                        if grouped {
+                            cmd = cmd.group(crate::ArgGroup::new("g").arg("a").multiple(true));
+                        }
+                        let _ = cmd.try_get_matches_from(argv2).map_err(|e| e.to_string());
+                    });
+                    if let Err(e) = r {
+                        let msg = e.downcast_ref::<String>().cloned().or_else(|| e.downcast_ref::<&str>().map(|s| s.to_string())).unwrap_or_default();
+                        println!("SPEC-REPLAY MISMATCH target=id_closures_total case={argv:?} args_conflicts_with_subcommands={acws} a_in_group={grouped}: parsing PANICKED: {}", msg.replace('\n', " ").chars().take(100).collect::<String>());
+                    }
+                }
+            }
+        }
+        let _ = std::panic::take_hook();
     } else if target == "match_arg_error" {
         // C10: the error kind names a rule the input really breaks
         for acws in [false, true] {
